@@ -694,6 +694,27 @@ Proof.
   rewrite powerRZ_mult_distr by now left. rewrite IZR_pow_nonneg, bpw_mul by assumption. reflexivity.
 Qed.
 
+Lemma fval_pow_unit s e n : Z.abs s = 1%Z -> fval B (s ^ Z.abs n) (e * n) = powerRZ (fval B s e) n.
+Proof.
+  intros Hs. assert (Hx : fval B s e <> 0) by (apply (fval_neq0 B HB); lia).
+  destruct (Z.le_gt_cases 0 n) as [Hn|Hn].
+  - rewrite Z.abs_eq by assumption. now apply fval_pow.
+  - rewrite Z.abs_neq by lia.
+    assert (E : powerRZ (fval B s e) n = / powerRZ (fval B s e) (- n)).
+    { rewrite <- (Z.opp_involutive n) at 1. rewrite powerRZ_neg, powerRZ_inv by assumption. reflexivity. }
+    rewrite E, <- fval_pow by lia.
+    assert (Hu : (IZR (s ^ (- n)) * IZR (s ^ (- n)) = 1)%R).
+    { rewrite <- mult_IZR, <- Z.pow_mul_l. replace (s * s)%Z with 1%Z by nia. now rewrite Z.pow_1_l by lia. }
+    unfold fval. fold (bpw B (e * n)) (bpw B (e * - n)).
+    replace (e * n)%Z with (- (e * - n))%Z by lia. rewrite bpw_neg.
+    assert (Hp := bpw_pos B HB (e * - n)).
+    assert (Hs0 : IZR (s ^ (- n)) <> 0) by (intros H0; rewrite H0 in Hu; lra).
+    apply Rmult_eq_reg_r with (IZR (s ^ (- n)) * bpw B (e * - n))%R.
+    2: { apply Rmult_integral_contrapositive_currified; lra. }
+    rewrite Rinv_l. 2: { apply Rmult_integral_contrapositive_currified; lra. }
+    field_simplify; [|lra]. nra.
+Qed.
+
 Theorem check_powi_sound pra ok p s e n rs re fexact :
   (s <> 0 \/ 0 <= n)%Z ->
   Sound p (powerRZ (fval B s e) n) (fval B rs re) fexact (check_powi pra ok B p s e n rs re fexact).
@@ -707,6 +728,8 @@ Proof.
       destruct (ok && (0 <? n)%Z) eqn:Q1.
       { apply andb_true_iff in Q1. destruct Q1 as [_ Q1]. apply Z.ltb_lt in Q1.
         apply decide_exact_sound. symmetry. apply fval_pow. lia. }
+      destruct (Z.eqb_spec (Z.abs s) 1) as [Hs1|Hs1].
+      { apply decide_exact_sound. symmetry. apply fval_pow_unit. exact Hs1. }
       destruct (ok && feq B (rs * s ^ (- n)) (re + e * - n) 1 0) eqn:Q2.
       { apply andb_true_iff in Q2. destruct Q2 as [Hok Q2]. rewrite Hok in Q1. simpl in Q1.
         apply Z.ltb_ge in Q1. apply (feq_correct B HB) in Q2. rewrite fval_1_0 in Q2.
